@@ -10,6 +10,7 @@ import (
 	"crypto/x509/pkix"
 	"encoding/pem"
 	"fmt"
+	"io"
 	"math/big"
 	"net"
 	"net/http"
@@ -106,25 +107,34 @@ func runC20(r *Run) {
 	// directed openings: the CA file as it is when the settings are first loaded (a CA, empty, not PEM) x every way of
 	// spelling skip-verify; the rest of each scenario is random as usual
 	type opening struct {
-		content string
-		s       tlsSetting
-		s2      *tlsSetting // a second, different setting on the same CA file, followed by a rotation of the file
+		content    string
+		s          tlsSetting
+		s2         *tlsSetting // a second, different setting on the same CA file, followed by a rotation of the file
+		probeFirst bool        // every client is used (real handshakes) BEFORE the rotation, and again after it
 	}
 	var openings []opening
 	for _, c0 := range []string{"", "junk", "CA-A"} {
 		for _, sk := range []string{"u", "b1", "b0", "s:true", "s:junk"} {
-			openings = append(openings, opening{c0, tlsSetting{Kind: "file", File: "f1", Skip: sk, Interval: interval}, nil})
+			openings = append(openings, opening{c0, tlsSetting{Kind: "file", File: "f1", Skip: sk, Interval: interval}, nil, false})
 		}
 	}
 	for _, ca := range []string{"CA-A", "junk"} {
 		for _, sk := range []string{"b1", "s:1", "u"} {
-			openings = append(openings, opening{"CA-A", tlsSetting{Kind: "inline", CA: ca, File: "f1", Skip: sk, Interval: interval}, nil})
+			openings = append(openings, opening{"CA-A", tlsSetting{Kind: "inline", CA: ca, File: "f1", Skip: sk, Interval: interval}, nil, false})
 		}
 	}
 	for _, second := range []tlsSetting{{Kind: "file", File: "f1", Skip: "u", Interval: interval + 10*time.Millisecond}, {Kind: "file", File: "f1", Skip: "b1", Interval: interval},
 		{Kind: "file", File: "f1", Skip: "u", Interval: 0}} {
 		sec := second
-		openings = append(openings, opening{"CA-A", tlsSetting{Kind: "file", File: "f1", Skip: "u", Interval: interval}, &sec})
+		openings = append(openings, opening{"CA-A", tlsSetting{Kind: "file", File: "f1", Skip: "u", Interval: interval}, &sec, false})
+	}
+	// used before the rotation, then again after it (whatever a client keeps from an earlier connection must not outlive the CA)
+	openings = append(openings, opening{"CA-A", tlsSetting{Kind: "file", File: "f1", Skip: "u", Interval: interval}, nil, true},
+		opening{"CA-A", tlsSetting{Kind: "file", File: "f1", Skip: "b0", Interval: interval + 10*time.Millisecond}, nil, true})
+	// settings without a CA that differ only in skip-verify, in its several spellings, loaded one after the other
+	for _, pair := range [][2]string{{"s:true", "s:false"}, {"s:false", "s:true"}, {"s:true", "b0"}, {"b0", "s:1"}, {"s:junk", "b1"}, {"b1", "s:false"}} {
+		second := tlsSetting{Kind: "none", Skip: pair[1], Interval: 0}
+		openings = append(openings, opening{"CA-A", tlsSetting{Kind: "none", Skip: pair[0], Interval: 0}, &second, false})
 	}
 	nScen := scale(r, 6, 300) + len(openings)
 	for sc := 0; sc < nScen && r.unknownViolations() == 0; sc++ {
@@ -159,9 +169,13 @@ func runC20(r *Run) {
 		}
 		var ls []loaded
 		var history []any
+		only := "" // when set: probe only the server whose certificate chains to this CA (no other handshake in between)
 		probeAll := func() {
 			for i, l := range ls {
 				for _, srvName := range []string{"CA-A", "CA-B", "-"} {
+					if only != "" && srvName != only {
+						continue
+					}
 					out := "reject"
 					if l.err == nil {
 						tr := l.client.Transport.(*http.Transport)
@@ -169,6 +183,7 @@ func runC20(r *Run) {
 						c := &http.Client{Transport: tr, Timeout: 3 * time.Second}
 						resp, err := c.Get("https://" + servers[srvName].addr + "/")
 						if err == nil {
+							_, _ = io.Copy(io.Discard, resp.Body) // read to the end: post-handshake messages (session tickets) are processed
 							_ = resp.Body.Close()
 							out = "accept"
 						}
@@ -203,6 +218,20 @@ func runC20(r *Run) {
 					k = 0 // the second setting
 				case 2:
 					k, forcedRotation = 5, true // the file both name is rotated
+				}
+			}
+			if sc < len(openings) && openings[sc].probeFirst {
+				switch e {
+				case 1:
+					// two connections in a row to the server of the CURRENT CA and to nobody else (a client may keep a session
+					// ticket from the first for the second)
+					only = "CA-A"
+					probeAll()
+					probeAll()
+					only = ""
+					continue
+				case 2:
+					k, forcedRotation = 5, true
 				}
 			}
 			switch {
@@ -319,6 +348,13 @@ func runC20(r *Run) {
 					}
 				}
 				r.Emit("tls settle", "ok")
+				if forcedRotation && sc < len(openings) && openings[sc].probeFirst {
+					// the first connection after the rotation goes to the server of the OLD CA: it must be refused although the
+					// client has talked to that server before
+					only = "CA-A"
+					probeAll()
+					only = ""
+				}
 			default:
 				probeAll()
 			}
